@@ -161,6 +161,12 @@ def gen_cases(tier, seed, shard, nshards):
         i += 1
         if i % nshards == shard:
             yield {"id": "crafted/%d" % k, "form": "crafted", "lines": "".join(t).splitlines(True)}
+    # source FILES that are not text the assembler can read: bytes that are not UTF-8 (old 8-bit sources), a file that is not there
+    for k, raw in enumerate([b" NOP ; caf\xe9\n", b" FCC \"\xff\xfe\"\n", b"\x80\x81\x82\n NOP\n", None]):
+        for sw in (["--to_bin", "o.bin"], ["--print"], ["--to_cas", "o.cas", "--to_dsk", "o.dsk"]):
+            i += 1
+            if i % nshards == shard:
+                yield {"id": "cliraw/%d/%s" % (k, sw[0]), "form": "cli", "raw": raw.hex() if raw is not None else None, "argv": sw, "lines": [], "preexisting": False}
     for k, t in enumerate(bad_texts):
         for sw in (["--to_bin", "o.bin"], ["--to_cas", "o.cas"], ["--to_dsk", "o.dsk"], ["--to_bin", "o.bin", "--to_cas", "o.cas", "--to_dsk", "o.dsk"],
                    ["--print", "--symbols"]):
@@ -292,6 +298,13 @@ def run_case(case, ctx):
     if case["form"] == "cli":
         d = tempfile.mkdtemp(prefix="cli-", dir=ctx.tmp)
         try:
+            if "raw" in case:
+                if case["raw"] is not None:
+                    open(os.path.join(d, "p.asm"), "wb").write(bytes.fromhex(case["raw"]))
+                res = fsmon.run_cli("assembler.py", ["p.asm"] + case["argv"], d)
+                ctx.mon("M6.cli-runs")
+                judge_cli(case, ctx, res, expect_fail=True)
+                return
             open(os.path.join(d, "p.asm"), "w").write("".join(lines))
             if case["preexisting"]:
                 for n in ("o.bin", "o.cas", "o.dsk"):
